@@ -11,7 +11,8 @@ from __future__ import annotations
 import json
 
 from vlib import registry as R
-from vlib.cbormodel import CBORTag, PairDict, plain_dumps
+from vlib.cbormodel import CBORTag, PairDict
+from vlib.cbormodel import dumps as plain_dumps  # registers provenance: the tool may re-decode reference-built files (C05) structurally
 
 
 class RefencError(Exception):
